@@ -124,6 +124,13 @@ def _one(args: Tuple[str, str, List[str]]) -> Tuple[str, str, Dict[str, Any]]:
         for p in props:
             res["errors"][p] = str(e)
         return kind, path, res
+    except (RecursionError, Exception) as e:
+        import traceback
+        tb = traceback.extract_tb(e.__traceback__)
+        where = "%s:%d %s" % (tb[-1].filename.rsplit("/", 1)[-1], tb[-1].lineno, tb[-1].name) if tb else "?"
+        for p in props:
+            res["errors"][p] = "internal error %s at %s (normal form)" % (type(e).__name__, where)
+        return kind, path, res
     from .runner import run_rules
     for p in props:
         try:
@@ -137,7 +144,28 @@ def _one(args: Tuple[str, str, List[str]]) -> Tuple[str, str, Dict[str, Any]]:
                 res["errors"][p] = chk.floor_failures[0]
         except AnalysisError as e:
             res["errors"][p] = str(e)
+        except (RecursionError, Exception) as e:     # an analysis that broke decides nothing
+            import traceback
+            tb = traceback.extract_tb(e.__traceback__)
+            where = "%s:%d %s" % (tb[-1].filename.rsplit("/", 1)[-1], tb[-1].lineno, tb[-1].name) if tb else "?"
+            res["errors"][p] = "internal error %s at %s" % (type(e).__name__, where)
     return kind, path, res
+
+
+def _one_in_subprocess(args: Tuple[str, str, List[str]]) -> Tuple[str, str, Dict[str, Any]]:
+    """``_one`` in a fresh interpreter, with a time limit: the analyses share nothing"""
+    kind, path, props = args
+    env = dict(os.environ, PYTHONPATH=str(VERIF) + os.pathsep + os.environ.get("PYTHONPATH", ""))
+    try:
+        r = subprocess.run([sys.executable, "-m", "gtirb_static.corpus_one", kind, path] + list(props),
+                           capture_output=True, text=True, timeout=600, cwd=str(VERIF), env=env)
+        for line in r.stdout.splitlines():
+            if line.startswith("RESULT "):
+                return kind, path, json.loads(line[7:])
+        why = "internal error: no result (exit %d) %s" % (r.returncode, (r.stderr or "").strip().splitlines()[-1:] or "")
+    except subprocess.TimeoutExpired:
+        why = "internal error: analysis exceeded 600 s"
+    return kind, path, {"skipped": False, "reports": {p: [] for p in props}, "errors": {p: why for p in props}}
 
 
 def run_corpus(props: List[str], quiet: bool = True, jobs: int = 0) -> Dict[str, Any]:
@@ -159,8 +187,9 @@ def run_corpus(props: List[str], quiet: bool = True, jobs: int = 0) -> Dict[str,
                            "seeded_undecided": sorted(UNDECIDED), "alarms": [], "missed": [],
                            "benign_undecided": []}
     jobs = jobs or min(16, os.cpu_count() or 4)
-    with mp.Pool(jobs) as pool:
-        for kind, path, res in pool.imap_unordered(_one, work, chunksize=2):
+    from concurrent.futures import ThreadPoolExecutor
+    with ThreadPoolExecutor(max_workers=jobs) as pool:
+        for kind, path, res in pool.map(_one_in_subprocess, work):
             name = Path(path).parent.name
             if res.get("skipped"):
                 out["%s_skipped" % kind] += 1
